@@ -88,8 +88,38 @@ func (r *aclTokenReplicator) FetchUpdated(srv *Server, updates []string) (int, e
 }
 
 func (r *aclTokenReplicator) ensureRemoteConsistent(updates []string) ([]string, []string, error) {
-	//return true if consistent updates,
-	return []string{}, []string{}, nil
+	updatedMap := make(map[string]*structs.ACLToken)
+	for _, token := range r.updated {
+		updatedMap[token.AccessorID] = token
+	}
+	remoteMap := make(map[string]*structs.ACLTokenListStub)
+	for _, tokenStub := range r.remote {
+		remoteMap[tokenStub.AccessorID] = tokenStub
+	}
+	// The batch read is a stale read as well and may have been answered by a
+	// server that is behind the one that answered the list: do not apply a
+	// version that is older than the one the diff was computed from.
+	var consistent = true
+	var remoteNotCreated []string
+	var remoteNotUpdated []string
+	var err error = nil
+	for _, accessorID := range updates {
+		if updatedToken, ok := updatedMap[accessorID]; ok {
+			if remoteToken, ok := remoteMap[accessorID]; ok {
+				if !bytes.Equal(updatedToken.Hash, remoteToken.Hash) && updatedToken.ModifyIndex < remoteToken.ModifyIndex {
+					remoteNotUpdated = append(remoteNotUpdated, accessorID)
+					consistent = false
+				}
+			}
+		} else if remoteToken, ok := remoteMap[accessorID]; ok && remoteToken.ModifyIndex == remoteToken.CreateIndex {
+			remoteNotCreated = append(remoteNotCreated, accessorID)
+			consistent = false
+		}
+	}
+	if !consistent {
+		err = errContainsStaleData
+	}
+	return remoteNotCreated, remoteNotUpdated, err
 }
 
 func (r *aclTokenReplicator) DeleteLocalBatch(srv *Server, batch []string) error {
